@@ -267,6 +267,8 @@ def replay_case(case):
     if case["kind"] == "tables":
         check_tables(acc, out)
         return out
+    if case["kind"] == "after_failures":
+        return engine.replay_block(("after_failures",)) if engine._EVAL is not None else (after_failures(acc, out) or out)
     if case["kind"] == "vargroups":
         return engine.replay_block(("vargroups",)) if engine._EVAL is not None else (vargroup_sequence(acc, out) or out)
     e = [x for x in C.entries() if x.label == case["entry"]][0]
@@ -305,8 +307,56 @@ def vargroup_sequence(acc, out):
             out.append((f"declared_definition_unusable_after_other_definitions|{e.label}|{type(ex).__name__}", str(ex)))
 
 
+def after_failures(acc, out):
+    """Operations that FAIL part-way through a definition (payload cut inside the last group member; a value
+    the second group member cannot take), for every definition with a group, all in ONE process; afterwards
+    every declared definition must still be usable (nominal build + parse, one attribute per named field)."""
+    from pyubx2 import UBXMessage
+    ents = [e for e in C.entries() if e.routed and not C.invalid_types(e.pdict)]
+    nfail = 0
+    for e in ents:
+        groups = [(k, v) for k, v in e.pdict.items() if isinstance(v, tuple)]
+        if not groups:
+            continue
+        pl = C.build_payload(e, lambda x: 2, 2, lambda i: (3 * i + 1) % 200)
+        if pl:
+            for cut in range(1, min(17, len(pl))):
+                for pbf in (1, 0):
+                    try:
+                        UBXReader.parse(ref.frame(e.clsid[0], e.clsid[1], pl[:-cut]), msgmode=e.mode, parsebitfield=pbf)
+                    except Exception:  # noqa: BLE001
+                        nfail += 1
+        if K.route_kwargs(e) is None:
+            continue
+        for gname, (cnt, members) in groups:
+            if not isinstance(cnt, str) or cnt == "None":
+                continue
+            for mname, mtyp in members.items():
+                if isinstance(mtyp, (tuple, dict)):
+                    continue
+                for bad in (object(), -1, "x" * 3):
+                    try:
+                        UBXMessage(e.clsid[0:1], e.clsid[1:2], e.mode, **{cnt: 2, mname + "_02": bad})
+                    except Exception:  # noqa: BLE001
+                        nfail += 1
+    acc.extra["failing_operations"] += nfail
+    for e in ents:
+        sub = []
+        for pbf in (True, False):
+            consequence(e, pbf, 1, sub)
+        acc.transitions += 2
+        out += [("after_failed_operations|" + k, d) for k, d in sub]
+
+
 def eval_block(block, acc):
     ents = C.entries()
+    if block[0] == "after_failures":
+        out = []
+        after_failures(acc, out)
+        acc.evaluations += 1
+        for key, detail in out:
+            acc.violation(key, {"kind": "after_failures"}, detail)
+        return
     if block[0] == "vargroups":
         out = []
         vargroup_sequence(acc, out)
@@ -348,7 +398,7 @@ def run_tier(tier, t0):
     ents = C.entries()
     counts = (1,) if q else (0, 1, 2)
     idx = list(range(len(ents)))
-    blocks = [("entries", idx[i::32], counts) for i in range(32)] + [("tables",), ("vargroups",)]
+    blocks = [("entries", idx[i::32], counts) for i in range(32)] + [("tables",), ("vargroups",), ("after_failures",)]
     acc = engine.sweep(blocks, eval_block)
     engine.finish(
         PROP, tier, acc, t0, replay_case,
@@ -357,7 +407,7 @@ def run_tier(tier, t0):
             f"for every routed (message, mode): nominal build (keyword route, or payload route for the pinned payload-only list) and parse with group counts {counts} x both bitfield views. "
             "states = definitions walked; transitions = table nodes visited; distinct_nontrivial = (mode, clean/defective) classes"
         ),
-        assumptions=["grammar as documented in README §Extensibility; group sizes are looked up by unsuffixed name, so they must be top-level integers/flags", "entries no API route reaches (O10) are grammar-checked only"],
+        assumptions=["grammar as documented in README §Extensibility; group sizes are looked up by unsuffixed name, so they must be top-level integers/flags", "entries no API route reaches (O10) are grammar-checked only", "usability is re-checked in one process after every variable-by-size definition has been used in GET, SET, POLL order, and after a sweep of operations that fail inside a group (payload cut inside the last member; a value the second member cannot take) on every definition with a group"],
         vacuity=[
             ("all table entries walked", len(acc.states) == len(ents)),
             ("attributes, flags and groups were visited", acc.extra["attributes"] > 2000 and acc.extra["flags"] > 1000 and acc.extra["groups"] > 90),
